@@ -41,32 +41,33 @@ Theorem C12_subst_rule : forall (K : Type) (O : ops K),
 Proof. exact D_subst_chain. Qed.
 Print Assumptions C12_subst_rule.
 
-(* placement: entry (i, j) of the assembled matrices, for any number of state variables *)
-Theorem C12_placement_J0 : forall (K : Type) (O : ops K) st (fs : list (expr K)),
-  resolved K fs -> length fs = length st ->
-  mat O (length st) (j0_entries O st fs) =
+(* placement: entry (i, j) of the assembled matrices, for any number of state variables (`skip`: entries the printer cannot
+   emit; none in the current code, `resolved` says that none is skipped) *)
+Theorem C12_placement_J0 : forall (K : Type) (O : ops K) skip st (fs : list (expr K)),
+  resolved K skip fs -> length fs = length st ->
+  mat O (length st) (j0_entries O skip st fs) =
   map (fun i => map (fun j => D O (nth i fs (Cst (o0 O))) (AV (nth j st 0))) (seq 0 (length st))) (seq 0 (length st)).
 Proof. exact mat_j0. Qed.
 Print Assumptions C12_placement_J0.
 
-Theorem C12_placement_hist : forall (K : Type) (O : ops K) st (fs : list (expr K)) d,
-  resolved K fs -> length fs = length st -> nodupb st = true ->
-  mat O (length st) (hist_entries O true st fs d) =
+Theorem C12_placement_hist : forall (K : Type) (O : ops K) skip st (fs : list (expr K)) d,
+  resolved K skip fs -> length fs = length st -> nodupb st = true ->
+  mat O (length st) (hist_entries O true skip st fs d) =
   map (fun i => map (fun j => D O (nth i fs (Cst (o0 O))) (AP (nth j st 0) d)) (seq 0 (length st))) (seq 0 (length st)).
 Proof. exact mat_hist. Qed.
 Print Assumptions C12_placement_hist.
 
-(* the property, within the two guards: the matrices get_jacobian_func builds are the partial derivatives of the vector field
+(* the property, within the guard no_delayed_factor_in_j0: the matrices get_jacobian_func builds are the partial derivatives of the vector field
    get_run_func evaluates (J0: with respect to the state; one matrix per distinct delay: with respect to the delayed state) *)
 Theorem C12_partial : forall (K : Type) (O : ops K),
   ring_theory (o0 O) (o1 O) (oadd O) (omul O) (osub O) (oopp O) eq ->
   forall (s : sys K) (r : atom -> K),
-  wf s = true -> no_absv s = true -> no_delayed_factor_in_j0 O s = true -> jac_impl O s r = jac_spec O s r.
+  wf s = true -> no_delayed_factor_in_j0 O s = true -> jac_impl O s r = jac_spec O s r.
 Proof. exact jac_refines. Qed.
 Print Assumptions C12_partial.
 
 Theorem C12_partial_Qc : forall (s : sys Qc) (r : atom -> Qc),
-  wf s = true -> no_absv s = true -> no_delayed_factor_in_j0 QcO s = true -> jac_impl QcO s r = jac_spec QcO s r.
+  wf s = true -> no_delayed_factor_in_j0 QcO s = true -> jac_impl QcO s r = jac_spec QcO s r.
 Proof. exact jac_refines_Qc. Qed.
 Print Assumptions C12_partial_Qc.
 
@@ -78,17 +79,19 @@ Theorem C12_history_list_complete : forall (K : Type) (O : ops K),
 Proof. exact spec_Jd_zero. Qed.
 Print Assumptions C12_history_list_complete.
 
-(* the full statement (no guards) is false of the faithful model, twice *)
+(* the full statement (no guard) is false of the faithful model: instantaneous entry with a delayed factor -> NameError *)
 Theorem C12_refuted_delayed_factor : ~ C12_full_statement.
 Proof. exact full_statement_refuted_delayed. Qed.
 Print Assumptions C12_refuted_delayed_factor.
 
-Theorem C12_refuted_absv : ~ C12_full_statement.
-Proof. exact full_statement_refuted_absv. Qed.
-Print Assumptions C12_refuted_absv.
+(* note, before fix D51: an entry whose derivative passes through absv was silently left 0 *)
+Theorem C12_absv_preD51_refuted : exists s r, wf s = true /\ no_delayed_factor_in_j0 QcO s = true /\
+  jac_impl_preD51 QcO s r <> jac_spec QcO s r.
+Proof. exact preD51_refuted. Qed.
+Print Assumptions C12_absv_preD51_refuted.
 
 (* the code before fix D08 (history column = position inside the delay group) violated the property inside the guards *)
-Theorem C12_jhist_column_preD08_refuted : exists s r, wf s = true /\ no_absv s = true /\
+Theorem C12_jhist_column_preD08_refuted : exists s r, wf s = true /\
   no_delayed_factor_in_j0 QcO s = true /\ jac_impl_preD08 QcO s r <> jac_spec QcO s r.
 Proof. exact preD08_refuted. Qed.
 Print Assumptions C12_jhist_column_preD08_refuted.
@@ -96,7 +99,7 @@ Print Assumptions C12_jhist_column_preD08_refuted.
 (* non-vacuity: a two-node model with three state variables, two intermediates (one of them an edge input with a delayed
    edge), a parameter delay on the second state variable satisfies all hypotheses; its matrices have non-diagonal entries *)
 Example C12_nonvacuous :
-  wf w_ok = true /\ no_absv w_ok = true /\ no_delayed_factor_in_j0 QcO w_ok = true /\
+  wf w_ok = true /\ no_delayed_factor_in_j0 QcO w_ok = true /\
   jac_impl QcO w_ok w_ok_env =
     Ok [[mkq (-3) 16; mkq 13 8; mkq 0 1]; [mkq 1 1; mkq 0 1; mkq 0 1]; [mkq 0 1; mkq 2 1; mkq (-3) 1]]
        [(4, [[mkq 0 1; mkq 0 1; mkq 0 1]; [mkq 0 1; mkq (-3) 2; mkq 0 1]; [mkq 0 1; mkq 0 1; mkq 0 1]]);
